@@ -595,7 +595,7 @@ def nontrivial(case: dict[str, Any]) -> bool:
 
 def shards(tier: str) -> list[dict[str, Any]]:
     if tier == "quick":
-        return [{"what": "gen", "n": 120} for _ in range(15)] + [{"what": "cli", "pick": 4}]
+        return [{"what": "gen", "n": 120} for _ in range(15)] + [{"what": "cli", "pick": 5}]
     g = len(grid())
     return [{"what": "grid", "part": i, "parts": 16, "total": g} for i in range(16)] + [{"what": "gen", "n": 2500} for _ in range(8)] + \
         [{"what": "cli", "part": i, "parts": 4} for i in range(4)] + [{"what": "slow-hooks", "part": i} for i in range(4)]
@@ -695,14 +695,20 @@ def check_cli_sigint(case: dict[str, Any]) -> list[tuple[str, str]]:
             args += ["--lock-file", str(d / "lock")]
         if case["post_hook"] == "ok":
             args += ["--post-hook", f'echo "$GALLIA_EXIT_CODE" > "{d}/post.code"']
+        during_pre = case.get("at") == "pre-hook"
+        if during_pre:
+            # Ctrl-C while the pre-hook (a power-cycle script, say) is still running
+            args += ["--pre-hook", f'touch "{d}/pre.started"; sleep 2']
         env = {k: v for k, v in os.environ.items() if not k.startswith("GALLIA_") or k == "GALLIA_VERIF"}
         p = subprocess.Popen(args, cwd=d, env=env, stdout=subprocess.DEVNULL, stderr=subprocess.PIPE, text=True)
         for _ in range(400):
-            if sock.exists() or p.poll() is not None:
+            if (d / "pre.started").exists() if during_pre else sock.exists():
+                break
+            if p.poll() is not None:
                 break
             time.sleep(0.05)
         time.sleep(case.get("after", 0.3))
-        ctx = f"gallia {' '.join(args[3:])}, SIGINT after the server was up"
+        ctx = f"gallia {' '.join(args[3:])}, SIGINT " + ("while the pre-hook was running" if during_pre else "after the server was up")
         if p.poll() is not None:
             return [("C15/cli/sigint/command-ended-early", f"{ctx}: exit status {p.returncode}; {p.stderr.read()[-300:]}")]
         p.send_signal(signal.SIGINT)
@@ -723,9 +729,14 @@ def check_cli_sigint(case: dict[str, Any]) -> list[tuple[str, str]]:
                 out.append(("C15/cli/sigint/meta-exit-code", f"{ctx}: the process ended with {rc}, META.json says exit_code {meta.get('exit_code')}"))
         if case["db"] == "on":
             con = sqlite3.connect(d / "db.sqlite")
-            rows = con.execute("SELECT end_time, exit_code FROM run_meta").fetchall()
+            try:
+                rows = con.execute("SELECT end_time, exit_code FROM run_meta").fetchall()
+            except sqlite3.OperationalError:
+                rows = []  # the database was never set up
             con.close()
-            if len(rows) != 1 or rows[0][0] is None or rows[0][1] != 130:
+            if during_pre and not rows:
+                pass  # interrupted before the database was opened: there is no run entry that could be incomplete
+            elif len(rows) != 1 or rows[0][0] is None or rows[0][1] != 130:
                 out.append(("C15/cli/sigint/db-run-meta", f"{ctx}: the process ended with {rc}, run_meta rows {rows}"))
         if case["post_hook"] == "ok":
             code = (d / "post.code").read_text().strip() if (d / "post.code").exists() else None
@@ -748,7 +759,8 @@ def cli_cases() -> list[dict[str, Any]]:
     return [{"kind": "cli", "ecu": ecu, "db": db, "lock": lock, "post_hook": hook}
             for ecu in (True, False) for db in ("off", "on", "garbage", "dir") for lock in (False, True) for hook in ("none", "fail", "signal")] + \
         [{"kind": "cli-sigint", "db": db, "lock": lock, "post_hook": hook, "after": after}
-         for db in ("off", "on") for lock in (False, True) for hook in ("none", "ok") for after in (0.3, 1.2)]
+         for db in ("off", "on") for lock in (False, True) for hook in ("none", "ok") for after in (0.3, 1.2)] + \
+        [{"kind": "cli-sigint", "db": db, "lock": True, "post_hook": "ok", "after": 0.5, "at": "pre-hook"} for db in ("off", "on")]
 
 
 def _quiet_aiosqlite_threads() -> None:
@@ -782,13 +794,14 @@ def run_shard(spec: dict[str, Any], seed: int) -> Collector:
             # quick tier: a seed-dependent handful, always with one run against a running ECU and one with a file that is no database
             rot = seed % len(cases)
             cases = [c for c in cases if c.get("ecu") and c["db"] == "on"][:1] + [c for c in cases if c["db"] == "garbage"][:1] + \
-                [c for c in cases if c["kind"] == "cli-sigint" and c["db"] == "on"][seed % 4:][:1] + (cases[rot:] + cases[:rot])[: spec["pick"] - 3]
+                [c for c in cases if c["kind"] == "cli-sigint" and c["db"] == "on" and not c.get("at")][seed % 4:][:1] + \
+                [c for c in cases if c.get("at") == "pre-hook"][seed % 2:][:1] + (cases[rot:] + cases[:rot])[: spec["pick"] - 4]
         else:
             cases = cases[spec["part"]::spec["parts"]]
             col.exhaustive_parts.append("real command line in a child process: {ECU running, absent} x db {off, on, not a database, directory} x lock x post-hook {none, failing, killed}")
         for c in cases:
             res = check(c)
-            col.case(str(c), True, cls=(f"cli/{'ecu' if c['ecu'] else 'no-ecu'}/db-{c['db']}" if c["kind"] == "cli" else f"cli/sigint/db-{c['db']}"), sample=c)
+            col.case(str(c), True, cls=(f"cli/{'ecu' if c['ecu'] else 'no-ecu'}/db-{c['db']}" if c["kind"] == "cli" else f"cli/sigint/db-{c['db']}" + ("/during-pre-hook" if c.get("at") else "")), sample=c)
             for b, m in res:
                 col.violation(b, c, m)
         return col
